@@ -82,6 +82,22 @@ def r1_copy_routes(R) -> None:
     R.expect('fsic/*', n, 2, 'classes that define copy()')
 
 
+def _deep_copy_arms(e: ast.AST) -> bool:
+    """Every arm of `e` is copy.deepcopy(X) - or X.copy() taken only where X is known to be a plain ndarray without Python
+    objects (the buffer copy is then as deep as it gets)."""
+    from fsa.gated import canon, leaves
+    for (facts, leaf) in leaves(canon(e)):
+        if is_call(leaf, 'copy.deepcopy') and leaf.args:
+            continue
+        if method_call(leaf, 'copy') and not leaf.args:
+            x = text(leaf.func.value)
+            if any(text(a_) == f'{x}.dtype.hasobject' and not tr_ for (a_, tr_) in facts) \
+                    and any(text(a_) in (f'type({x}) is np.ndarray', f'isinstance({x}, np.ndarray)') and tr_ for (a_, tr_) in facts):
+                continue
+        return False
+    return True
+
+
 def r2_copy_completeness(R) -> None:
     for q in ('fsic.core.containers.VectorContainer.copy', 'fsic.core.linkers.BaseLinker.copy'):
         f = Fn(R, q)
@@ -95,7 +111,8 @@ def r2_copy_completeness(R) -> None:
         # constructor arguments must be deep copies
         for a in list(ctor.args) + [k.value for k in ctor.keywords]:
             a2 = f.as_dictcomp(new.id, a) or f.expand(new.id, a)
-            ok = is_call(a2, 'copy.deepcopy') or (isinstance(a2, ast.DictComp) and is_call(a2.key, 'copy.deepcopy') and is_call(a2.value, 'copy.deepcopy'))
+            a2 = f._inline_pure_calls(a2)
+            ok = _deep_copy_arms(a2) or (isinstance(a2, ast.DictComp) and _deep_copy_arms(a2.key) and _deep_copy_arms(a2.value))
             R.check(ok, q, 'ctor-arg:' + text(a)[:50], 'constructor arguments of the copy are deep copies',
                     f'`{text(a2)[:60]}` is passed to the new object by reference', where=f.where(new))
         # the new object's __dict__ is filled either by `.update(<mapping>)` or by stores in a loop: both are read as
@@ -127,7 +144,7 @@ def r2_copy_completeness(R) -> None:
             # to hold no Python objects (an object array's `.copy()` shares its elements, e.g. the per-period Trace objects)
             from fsa.gated import canon, leaves
             arms_ok = True
-            for (facts, leaf) in leaves(canon(dc.value)):
+            for (facts, leaf) in leaves(canon(f._inline_pure_calls(dc.value))):
                 if is_call(leaf, 'copy.deepcopy') and len(kv) == 2 and text(leaf.args[0]) == kv[1]:
                     continue
                 if method_call(leaf, 'copy') and len(kv) == 2 and text(leaf.func.value) == kv[1] and not leaf.args \
